@@ -614,8 +614,9 @@ fn on_send(m: &mut Mdl, pre: &Mdl, ap: &AP, c: &Call, r: &mut Rules, exp_rel: &m
             } else {
                 r.label(if sent { "pub0.sent" } else { "pub0.refused" });
             }
-            // application's alias view: a registration counts once the PUBLISH was transmitted
-            if sent {
+            // application's alias view: a registration counts once send() accepted the PUBLISH without an
+            // error (the application cannot tell whether it was transmitted at once or only stored)
+            if accepted && (sent || *qos > 0) {
                 if let Act::Pub { t, al: Al::Reg(a), .. } = &r.act {
                     m.app_alias.insert(*a, *t);
                 }
